@@ -376,6 +376,7 @@ __CPROVER_requires(g_tup_ok ==> FILL_TUP(g_dr, g_dg, g_db, g_da))
 DEF_REQ(TUP_DEF8)
 __CPROVER_ensures(verif_exc == 0)
 __CPROVER_ensures(INRECT(g_dx, g_dy, x, y, w, h) ? (FILL_COND ==> D4_RULE(FILL)) : D4_OLD)
+__CPROVER_ensures(GHOST_WF(self, g_dr, g_dg, g_db, g_da))
 __CPROVER_assigns(D_ASSIGNS);
 
 #define r C_R(c)
@@ -389,6 +390,7 @@ __CPROVER_requires(g_tup_ok ==> FILL_TUP(g_dr, g_dg, g_db, g_da))
 DEF_REQ(TUP_DEF8)
 __CPROVER_ensures(verif_exc == 0)
 __CPROVER_ensures(INRECT(g_dx, g_dy, x, y, w, h) ? (FILL_COND ==> D4_RULE(FILL)) : D4_OLD)
+__CPROVER_ensures(GHOST_WF(self, g_dr, g_dg, g_db, g_da))
 __CPROVER_assigns(D_ASSIGNS);
 void Image_clear_c(Image* self, uint32_t c)
 DST_REQ(self)
@@ -625,6 +627,34 @@ __CPROVER_requires(__CPROVER_is_fresh(buffer, buffer_size))
 __CPROVER_requires((width == 0 || __CPROVER_w_ok(width, sizeof(ssize_t))) && (height == 0 || __CPROVER_w_ok(height, sizeof(ssize_t))))
 __CPROVER_ensures(verif_exc == 0)
 __CPROVER_assigns(D_ASSIGNS; width != 0: *width; height != 0: *height);
+
+/* ================= clipping invariance (lemmas over the contracts) ================= */
+/* drawing on a small canvas equals drawing on a larger one (same pixel format) and cropping: for every pixel of the small canvas, starting
+ * from the same value, the same call leaves the same value on both canvases.  g_c1* = the result on the small canvas. */
+extern uint64_t g_c1r, g_c1g, g_c1b, g_c1a;
+#define CLIP_REQ(small, big) \
+  __CPROVER_requires(__CPROVER_is_fresh(small, sizeof(Image))) __CPROVER_requires(__CPROVER_is_fresh(big, sizeof(Image))) \
+  __CPROVER_requires(verif_exc == 0) __CPROVER_requires(IMG_VALID(small)) __CPROVER_requires(IMG_VALID(big)) \
+  __CPROVER_requires(small->width <= big->width && small->height <= big->height && small->has_alpha == big->has_alpha && small->channel_width == big->channel_width) \
+  __CPROVER_requires(!OUTSIDE(small, g_dx, g_dy)) __CPROVER_requires(GHOST_WF(small, g_dr, g_dg, g_db, g_da))
+#define CLIP_GHOSTS g_dimg, g_dw, g_dh, g_dalpha, g_dcw, g_c1r, g_c1g, g_c1b, g_c1a
+void L_fill_rect_clip(Image* small, Image* big, ssize_t x, ssize_t y, ssize_t w, ssize_t h, uint64_t r, uint64_t g, uint64_t b, uint64_t a)
+CLIP_REQ(small, big)
+__CPROVER_requires(COORD_OK(x) && COORD_OK(y) && COORD_OK(w) && COORD_OK(h))
+__CPROVER_requires(g_tup_ok ==> TUP_IS(a, r, g, b, a, g_dr, g_dg, g_db, g_da))
+__CPROVER_requires(g_tup_ok ==> TUP_DEF8)
+__CPROVER_ensures(verif_exc == 0)
+__CPROVER_ensures(FILL_COND ==> D4(g_c1r, g_c1g, g_c1b, g_c1a))
+__CPROVER_assigns(D_ASSIGNS, CLIP_GHOSTS);
+void L_blit_clip(Image* small, Image* big, const Image* source, ssize_t x, ssize_t y, ssize_t w, ssize_t h, ssize_t sx, ssize_t sy)
+CLIP_REQ(small, big) SRC_REQ(source)
+__CPROVER_requires(COORD_OK(x) && COORD_OK(y) && COORD_OK(w) && COORD_OK(h) && COORD_OK(sx) && COORD_OK(sy))
+__CPROVER_requires(g_sx == sx + (g_dx - x) && g_sy == sy + (g_dy - y))
+__CPROVER_requires(g_tup_ok ==> TUP_IS(g_sa, g_sr, g_sg, g_sb, g_sa, g_dr, g_dg, g_db, g_da))
+__CPROVER_requires(g_tup_ok ==> TUP_DEF8)
+__CPROVER_ensures(verif_exc == 0)
+__CPROVER_ensures(BLIT_COND ==> D4(g_c1r, g_c1g, g_c1b, g_c1a))
+__CPROVER_assigns(D_ASSIGNS, CLAMP_GHOSTS, CLIP_GHOSTS);
 
 /* ================= the colour rules with their arithmetic written out (statement of record for the blending variants) =================
  * Lemma wrappers (harness/C07/canvas.c: L_*_rule) carry these postconditions; each wrapper chooses the function point (tuple := the actual
